@@ -626,14 +626,17 @@ impl<T> std::ops::IndexMut<StateSetID> for Vec<T> {
 impl std::fmt::Display for StateID {
     fn fmt(&self, f: &mut std::fmt::Formatter<'_>) -> std::fmt::Result { write!(f, "{}", self.0) }
 }
-// opaque: carried along, never inspected here
-#[verifier::external_body] pub struct ComparableAst { _private: () }
-#[verifier::external_body] pub struct Lookahead { _private: () }
-#[verifier::external_body] pub struct CompiledLookahead { _private: () }
-
 pub assume_specification<T: PartialEq>[ <[T]>::contains ](s: &[T], x: &T) -> (r: bool)
     ensures r == s@.contains(*x);   // assumes T's PartialEq is structural
-''', label='opaque types, IndexMut<StateSetID> (from impl_id!), <[T]>::contains'),
+''', label='external types, IndexMut<StateSetID> (from impl_id!), <[T]>::contains'),
+        Raw('''
+// opaque: carried along, never inspected here
+#[verifier::external_body] pub struct ComparableAst { _private: () }
+''', label='opaque ComparableAst'),
+        Raw('''
+#[verifier::external_body] pub struct Lookahead { _private: () }
+#[verifier::external_body] pub struct CompiledLookahead { _private: () }
+''', label='opaque Lookahead/CompiledLookahead'),
         Struct(F_PAT, 'Pattern', derive=[]),
         Struct(F_NFA, 'EpsilonTransition', derive=[]),
         Struct(F_NFA, 'NfaTransition', derive=[]),
